@@ -125,11 +125,39 @@ class MoneySys:
             out.append(('C12:money:registered-list',
                         f"registered_converters() = {idx}, model "
                         f"{list(reversed(self.stack))}"))
+        # a quantity that was itself the result of a conversion under an
+        # earlier state of the registry is converted back under the current
+        # one
+        kept = getattr(self, 'kept', None)
+        if kept is not None:
+            try:
+                back, berr = kept.convert(self.eur), None
+            except Exception as exc:
+                back, berr = None, exc
+            if not self.stack:
+                if not isinstance(berr, quantity.UnitConversionError):
+                    out.append(('C12:money:converted-quantity-remembers',
+                                f"{kept!r} (result of an earlier conversion) "
+                                "-> EUR with no active converter: "
+                                f"{type(berr).__name__ if berr else repr(back)}"))
+            else:
+                want_back = O.round_to(O.fr(kept.amount)
+                                       / O.val(RATES[self.stack[-1]]),
+                                       F(1, 100), 'ROUND_HALF_EVEN')
+                if berr is not None or O.fr(back.amount) != want_back:
+                    out.append(('C12:money:converted-quantity-remembers',
+                                f"{kept!r} (result of an earlier conversion) "
+                                f"-> EUR = "
+                                f"{repr(back) if berr is None else type(berr).__name__}"
+                                f", most recent converter c{self.stack[-1]} "
+                                f"gives {want_back}"))
         m = Money(F(10), self.eur)
         try:
             r, err = m.convert(self.usd), None
         except Exception as exc:
             r, err = None, exc
+        if err is None:
+            self.kept = r
         if not self.stack:
             if not isinstance(err, quantity.UnitConversionError):
                 out.append(('C12:money:convert-without-converter',
